@@ -277,7 +277,7 @@ def try_in_child(world, req):
 def run_shard(spec, acc):
     runner.quiet()
     rng = random.Random('c20-%s-%s' % (spec['seed'], spec['shard']))
-    nstates = 2 if spec['tier'] == 'quick' else 12
+    nstates = 2 if spec['tier'] == 'quick' else 30
     layouts = ['d2', 's1d2', 'h1d2', 'd1M1d2', 's2d2', 'h1s1d2', 'd3']
     for i in range(nstates):
         layout = layouts[(spec['shard'] + i) % len(layouts)]
